@@ -5,10 +5,16 @@ use crate::rng::Rng;
 use crate::sexp::*;
 use std::panic::{catch_unwind, AssertUnwindSafe};
 
-pub fn case(rng: &mut Rng, out: &mut Out) {
+/// `ext`: implementation-only variant — the grammar gets an %ignore lexeme (not modelled) and the
+/// multi-byte tokens are cut out of strings of the grammar, some with a leading blank
+pub fn case(rng: &mut Rng, out: &mut Out, ext: bool) {
     let g = gen_gram(rng);
-    let lark = g.to_lark();
-    let (wa, eosa) = gen_engine_vocab(rng, 50);
+    let ignore = ext && rng.chance(2, 3);
+    let lark = if ignore { format!("{}%ignore /[ ]+/\n", g.to_lark()) } else { g.to_lark() };
+    let (wa, eosa) = match if ext { derived_vocab(rng, &lark, 40, ignore) } else { None } {
+        Some(v) => v,
+        None => gen_engine_vocab(rng, 50),
+    };
     let (wb, eosb) = single_byte_vocab();
     let enva = make_env(&wa, eosa, false);
     let envb = make_env(&wb, eosb, false);
@@ -122,6 +128,9 @@ pub fn case(rng: &mut Rng, out: &mut Out) {
         viol.push("panic escaped from the Matcher API".to_string());
     }
     for (ws, eos, ops, res) in [(&wa, eosa, &ops_a, res_a), (&wb, eosb, &ops_b, res_b)] {
+        if ignore {
+            break; // skip lexemes are outside the modelled fragment: implementation-only comparison
+        }
         let mut inp = vec![g.to_sx()];
         inp.extend(vocab_sx(ws, eos));
         inp.push(tagged("canonical", vec![int(0)]));
@@ -131,7 +140,10 @@ pub fn case(rng: &mut Rng, out: &mut Out) {
     for v in viol {
         out.violation(&v, format!("vocabA={:?}\n--- lark ---\n{}", wa.iter().skip(256).collect::<Vec<_>>(), lark));
     }
-    out.count("pairs", 1);
+    out.count(if ext { "pairs_derived_vocab" } else { "pairs" }, 1);
+    if ignore {
+        out.count("pairs_with_ignore_lexeme", 1);
+    }
     out.count("multibyte_commits", spans);
 }
 
@@ -145,6 +157,8 @@ pub fn run(rng: &mut Rng, out: &mut Out, tier: &str) {
     let n = if tier == "thorough" { 5000 } else { 500 };
     for i in 0..n {
         let mut r = rng.fork(i as u64);
-        case(&mut r, out);
+        case(&mut r, out, false);
+        let mut r = rng.fork(0x0200_0000 + i as u64);
+        case(&mut r, out, true);
     }
 }
